@@ -112,6 +112,14 @@ def gen_ts(rng, T, style):
     if style == "even":
         h = rng.choice([1, 2, 5, 10, 100, rng.randint(1, 999)])
         return [s0 + h * k for k in range(T)]
+    if style == "nearly":
+        # huge gaps that differ by a few steps (1e-6 relative): still NOT evenly spaced — exactness of the spacing test
+        h = rng.choice([1000000, 2500000, 40000000])
+        out = [s0 + h * k for k in range(T)]
+        if T >= 3:
+            j = rng.randrange(2, T)
+            out[j:] = [x + rng.choice([1, 2, 4, -3]) for x in out[j:]]
+        return out
     if style == "equal":
         return [s0] * T
     if style == "pow2":
@@ -132,7 +140,7 @@ def gen_case(rng, stream="main"):
     d = rng.randint(1, 3)
     d1, d2 = (1, 1) if L == 2 else ((d, 1) if L == 3 else (d, d))
     cplx = rng.choice([0, 1])
-    style = rng.choice(["even", "even", "even", "uneven", "uneven", "pow2", "equal", "nonmono"])
+    style = rng.choice(["even", "even", "even", "uneven", "uneven", "pow2", "equal", "nonmono", "nearly"])
     ts = gen_ts(rng, T, style)
     dt = rng.choice(["0.002", "0.002", "1", "0.5", dec(rng, 0.001, 2, 3)])
     n = T * N * d1 * d2 * (2 if cplx else 1)
@@ -170,8 +178,14 @@ def gen_case(rng, stream="main"):
                             q = ((t * N + i) * d1 + b) * d2 + a
                             for r in range(w):
                                 vals[w * p + r] = vals[w * q + r]
+    amp = 0
+    if stream == "main" and rng.random() < 0.25:
+        # another unit of the quantity: every value × 10^amp — the normalised correlation does not depend on it, so an absolute
+        # guard / threshold hidden in a denominator shows up here
+        amp = rng.choice([-7, -5, 6, -9])
+        vals = [v if v == "0" else f"{v}e{amp}" for v in vals]
     return {"shapeLen": L, "T": T, "N": N, "d1": d1, "d2": d2, "cplx": cplx, "dt": dt, "ts": [str(t) for t in ts],
-            "vals": vals, "stream": stream, "style": style, "flavour": flavour, "csv": rng.random() < 0.05}
+            "vals": vals, "stream": stream, "style": style, "flavour": flavour, "csv": rng.random() < 0.05, "amp": amp}
 
 
 def op_line(c, mode):
@@ -279,6 +293,7 @@ def run_cases(run, cases, mode="impl", record=True):
             run.hist("shape", KIND.get(c["shapeLen"], f"len{c['shapeLen']}"))
             run.hist("dtype", "complex" if c["cplx"] else "real")
             run.hist("T", c["T"])
+            run.hist("amplitude_unit", "1e%d" % c.get("amp", 0))
             run.hist("N", c["N"])
             run.hist("d", c["d1"])
             run.hist("timesteps", c.get("style", "?"))
